@@ -11,6 +11,8 @@ extern crate iceoryx2_bb_loggers;
 mod h_c03;
 mod h_c05;
 mod h_c09;
+mod h_c10;
+mod h_c12;
 mod kit;
 
 use kit::*;
@@ -25,6 +27,9 @@ fn harnesses() -> Vec<Box<dyn Harness>> {
         Box::new(h_c09::PoolHarness { kind: "uis" }),
         Box::new(h_c09::PoolHarness { kind: "robust" }),
         Box::new(h_c09::PoolHarness { kind: "alloc" }),
+        Box::new(h_c10::ContainerHarness),
+        Box::new(h_c12::AtomicHarness { typed: false }),
+        Box::new(h_c12::AtomicHarness { typed: true }),
     ]
 }
 
@@ -49,6 +54,8 @@ fn spec_for<'a>(hs: &'a [Box<dyn Harness>], prop: &'a str) -> CheckSpec<'a> {
     let rule: &str = match prop {
         "C03" => "one evaluation = one simulated execution of a generated producer/consumer(/hand-over) program over a real queue; schedule, stale loads, write splits drawn from the run seed. distinct_nontrivial = distinct (plan, context-switch/stale-read/split/kill signature) pairs among runs with at least one context switch or injected fault",
         "C05" => "one evaluation = one simulated execution of 1..3 notifier threads (1..4 notify calls each, ids 0..2) racing a listener thread that issues a generated mix of try/timed waits and then blocks until a terminator id arrives; trigger capacity, fail_when_buffer_is_full, EINTR and notifier death are drawn per run; a deadlock with an undelivered successful notification is a lost wake-up. distinct_nontrivial = distinct (plan, schedule/fault signature) pairs among runs with at least one context switch or injected fault",
+        "C10" => "one evaluation = one simulated execution of 1..2 writer threads (generated add/remove/recover sequences with unique 32-byte self-checking records, capacity 1..3 so that slots are reused) racing a reader thread that refreshes its view 1..5 times; every view is judged against the add/remove history (torn, never added, removed before the refresh began, added before and missing), plus exactness at quiescence. distinct_nontrivial = distinct (plan, schedule/fault signature) pairs among runs with at least one context switch or injected fault",
+        "C12" => "one evaluation = one simulated execution of a writer performing up to 6 updates (typed store or two-step write-cell update, value sizes 1..200 bytes, alignments 1..64, self-checking versioned payloads), an optional second thread competing for the producer role, and 1..2 readers loading 1..5 times; in sc+p1 runs the writer is preempted inside its plain copy. distinct_nontrivial = distinct (plan, schedule/fault signature) pairs among runs with at least one context switch or injected fault",
         "C09" => "one evaluation = one simulated execution of 2..3 threads doing generated acquire/release(/lock-if-last) sequences on a real index set or pool allocator of capacity 1..4, one run in four of the robust set kills a thread mid-operation and recovers its owner id; distinct_nontrivial = distinct (plan, schedule/fault signature) pairs among runs with at least one context switch or injected fault",
         _ => "one evaluation = one simulated execution of a generated scenario; distinct_nontrivial = distinct (plan, schedule/fault signature) pairs among runs with at least one context switch or injected fault",
     };
